@@ -54,7 +54,7 @@ func runC02(r *Run) {
 						r.undecided(key, r.pos(br.If), "cannot classify branch on getMatch result")
 						continue
 					}
-					path, hit := reach(pointOfEdge(edge{br.If.Block(), slot}), mayReturnTrue, nil, nil)
+					path, hit := reachEdge(edge{br.If.Block(), slot}, mayReturnTrue, nil, nil)
 					r.check(hit == nil, key, r.pos(c.Instr),
 						"after getMatch refused every reachable return is the constant false",
 						fmt.Sprintf("a return that may be true is reachable after getMatch refused (constraint failure falls back to a literal/prefix comparison): %s → %s",
@@ -89,7 +89,7 @@ func runC02(r *Run) {
 					r.undecided(key, r.pos(br.If), "cannot classify branch")
 					continue
 				}
-				path, hit := reach(pointOfEdge(edge{br.If.Block(), slot}), accept, nil, nil)
+				path, hit := reachEdge(edge{br.If.Block(), slot}, accept, nil, nil)
 				r.check(hit == nil, key, r.pos(c.Instr), "only `return false` is reachable after a constraint refused",
 					"acceptance or the next segment is reachable after a constraint refused: "+pathString(r.P, path))
 			}
